@@ -208,6 +208,12 @@ class SymMode(TorchDispatchMode):
         self.write(t, arr)
         return arr
 
+    def has_symbols(self, t):
+        """does plain tensor t hold at least one non-constant term? (lifted-but-constant storages do not count)"""
+        if not self.is_sym(t) or t.numel() == 0:
+            return False
+        return any(x.op != "const" for x in self.read(t).reshape(-1))
+
     def protect(self, t, label):
         self.protected[self._key(t)] = label
 
@@ -378,7 +384,7 @@ class SymMode(TorchDispatchMode):
             kw["memory_format"] = kwargs["memory_format"]
         if func.overloadpacket in (aten.index, aten._unsafe_index):
             # indices (args[1]) are positions, not data; symbolic indices are not supported
-            if any(isinstance(i, torch.Tensor) and self.is_sym(i) for i in args[1]):
+            if any(isinstance(i, torch.Tensor) and self.has_symbols(i) for i in args[1]):
                 raise Unsupported("symbolic index tensor")
             ids = func(to_ids3(args[0]), args[1])
             padval = 0
@@ -1156,11 +1162,33 @@ def _rand(self, func, res, args, kwargs, pre):
     self.write(t, obj_array(tuple(t.shape), [c.var(f"rand{n}_{i}", t.dtype, v) for i, v in enumerate(vals)]))
 
 
+@handler(aten.nonzero, aten.nonzero_static)
+def _nonzero(self, func, res, args, kwargs, pre):
+    """data-dependent shape: which elements are non-zero becomes a set of branch conditions; the result stays concrete"""
+    c = self.ctx
+    a = args[0]
+    for t in self.read(a).reshape(-1):
+        if t.op == "const":
+            continue
+        cond = t if t.dt == BOOL else c.cast(t, BOOL)
+        self.path.append((cond, bool(cond.cv), "branch"))
+
+
 @handler(aten.index_put_, aten.index_put, aten._unsafe_index_put)
 def _index_put(self, func, res, args, kwargs, pre):
     dst, indices, values = args[0], args[1], args[2]
     accumulate = args[3] if len(args) > 3 else kwargs.get("accumulate", False)
-    if accumulate or any(isinstance(i, torch.Tensor) and self.is_sym(i) for i in indices):
+    if not accumulate and len(indices) == 1 and isinstance(indices[0], torch.Tensor) and indices[0].dtype == BOOL and tuple(indices[0].shape) == tuple(dst.shape) and values.numel() == 1:
+        # boolean-mask assignment t[mask] = v with a (possibly symbolic) mask: elementwise ite(mask, v, old)
+        c = self.ctx
+        M = self.read(indices[0]).reshape(-1)
+        V = self.terms_of(values, dst.dtype).reshape(-1)[0]
+        cur = pre if func._schema.is_mutable else self.read(dst).reshape(-1)
+        out = [c.ite(mk_, V, old) for mk_, old in zip(M, cur)]
+        target = dst if func._schema.is_mutable else res
+        self.write(target, obj_array(tuple(target.shape), out), fresh=not func._schema.is_mutable)
+        return
+    if accumulate or any(isinstance(i, torch.Tensor) and self.has_symbols(i) for i in indices):
         raise Unsupported("index_put accumulate / symbolic index")
     ids = torch.arange(1, dst.numel() + 1, dtype=torch.int64).reshape(dst.shape)
     marks = torch.zeros(dst.shape, dtype=torch.int64)
